@@ -10,6 +10,7 @@ import Peppi.Lemmas.C01C
 import Peppi.Lemmas.C01G
 import Peppi.Lemmas.PortMap
 import Peppi.PremisesViews
+import Peppi.Lemmas.Example
 set_option linter.unusedVariables false
 namespace Peppi.Props.C01
 
@@ -137,5 +138,40 @@ theorem views_Velocities : structOK false true Velocities.views = true :=
 open Extracted in
 theorem views_Velocity : structOK false true Velocity.views = true :=
   _root_.Peppi.views_Velocity 
+
+/- from `Peppi.Lemmas.Example` -/
+open Extracted in
+theorem example_A : (exReplay (exBlock 3 16 760) (exFrames [-123, -122, -122] 17 32 2 16 1 true) [2, 255, 0, 1, 255, 255]).WFAny T0
+    (startOf (exBlock 3 16 760)) none :=
+  _root_.Peppi.example_A 
+
+/- from `Peppi.Lemmas.Example` -/
+open Extracted in
+theorem example_B : (exReplay (exBlock 2 2 418) (exFrames [-123, -122, -122] 16 23 1 0 0 false) [2, 255]).WFAny T0
+    (startOf (exBlock 2 2 418)) none :=
+  _root_.Peppi.example_B 
+
+/- from `Peppi.Lemmas.Example` -/
+open Extracted in
+theorem example_C : (exReplay (exBlock 1 0 352) (exFrames [-123, -122, -121] 14 12 1 0 0 false) [2]).WFAny T0
+    (startOf (exBlock 1 0 352)) none :=
+  _root_.Peppi.example_C 
+
+/- from `Peppi.Lemmas.Example` -/
+open Extracted in
+theorem example_G : (exReplay (exBlock 3 16 760) (exFrames [-123, -122, -122] 17 32 2 16 1 true) [2, 255, 0, 1, 255, 255]).WFAny T0
+    (startOf (exBlock 3 16 760)) (some exGecko) :=
+  _root_.Peppi.example_G 
+
+/- from `Peppi.Lemmas.Example` -/
+open Extracted in
+theorem example_A_roundtrip (e : Bytes) :
+    let r := exReplay (exBlock 3 16 760) (exFrames [-123, -122, -122] 17 32 2 16 1 true) [2, 255, 0, 1, 255, 255]
+    let s := startOf (exBlock 3 16 760)
+    (∃ g, readSlp T0 {} (r.encodeAny s.version (portOccupancy s) none) = .ok g ∧
+      writeSlp g = .ok (r.encodeAny s.version (portOccupancy s) none)) ∧
+    ∀ n, n < (r.encodeAny s.version (portOccupancy s) none).length →
+      ∃ e, readSlp T0 {} ((r.encodeAny s.version (portOccupancy s) none).take n) = .err e :=
+  _root_.Peppi.example_A_roundtrip e
 
 end Peppi.Props.C01
